@@ -167,6 +167,10 @@ def run_field(vc, name):
         nes = list(ctx.ne)
         tag = "path%d" % npaths
         inf_operand = None
+        if kind == "add" and not Prover(list(ctx.eq), list(ctx.ne), gens).consistent():
+            # the decisions contradict each other in a field (e.g. Y1 != 0 and Y1^2 == 0): infeasible path
+            vc.record("%s/%s.infeasible" % (name, tag), True, "sympy-groebner", 0.0, "decisions=%s" % (ctx.log,))
+            continue
         if kind == "add":
             # operands that the path decided to be infinity (Y == 0 or Z == 0) are returned as the other operand
             for k, pt in enumerate(inp):
@@ -179,6 +183,13 @@ def run_field(vc, name):
             same = all(expand(FE.of(r).e - o) == 0 for r, o in zip(res, other))
             vc.record("%s/%s.infinity-operand=>other-operand" % (name, tag), same, "sympy", 0.0)
             continue
+        if kind == "add":
+            # completeness of the infinity tests: a path that treats both operands as finite must have DECIDED
+            # Y1, Z1, Y2, Z2 != 0 (an operand with Z == 0 or Y == 0 is infinity and has to be returned as "other")
+            pr0 = Prover(list(ctx.eq), list(ctx.ne), gens)
+            undecided = [str(v) for pt in inp for v in pt[1:] if not pr0.is_nonzero(v)]
+            vc.record("%s/%s.finite-path-has-excluded-infinity(Y,Z!=0-decided)" % (name, tag), not undecided, "sympy-groebner",
+                      0.0, "not excluded: %s decisions=%s" % (undecided, ctx.log))
         # finite operands: Y, Z non-zero
         for pt in inp:
             for v in pt[1:]:
@@ -262,4 +273,4 @@ for _n in SPECS:
         else:
             run_small(vc, _n)
     proof("C17/field.%s" % _n, functions=[(EC, "PointJacobi.%s" % _n)], family=fam_small,
-          thorough_only=(_n == "_add"))(_p)
+          thorough_only=False)(_p)
